@@ -107,7 +107,9 @@ def o1b(h, st):
 
 
 @contract("C08", "O2.operator_expectation", level="B", structures=lambda tier: [dict(c) for c in CONFIGS if c["ansatz"] in ("UCCSD", "HEA") and c["mapping"].lower() != "hcb"]
-          + [dict(CONFIGS[0], defl=True), dict(CONFIGS[4], defl=True), dict(CONFIGS[0], proj=True)],
+          + [dict(CONFIGS[0], defl=True), dict(CONFIGS[4], defl=True), dict(CONFIGS[0], proj=True)]
+          # frozen occupied orbitals (an odd number of them): the sector of the symmetry-conserving encoding is that of the ACTIVE electrons
+          + [{"mol": m, "ansatz": "UCCSD", "mapping": mp, "utd": u} for m in ("H4f0", "H4f03") for mp, u in (("scbk", True), ("scbk", False), ("jw", False))],
           native_samples=lambda st, rnd, tier: [{"seed": rnd.randint(0, 10 ** 6)}],
           targets=[(VQ, "VQESolver.operator_expectation")])
 def o2(h, st):
